@@ -330,7 +330,20 @@ class SymInt:
         if isinstance(o, (bytes, bytearray)) or hasattr(o, "__symx_repeat__"):
             return self.__rmul__(o)
         if isinstance(o, SymInt):
-            raise Unsupported("symbolic * symbolic")
+            # as for symbolic divisors: one factor is enumerated (fork over at most 8 values, else unsupported)
+            a, c = (self, o) if (o.hi - o.lo) <= (self.hi - self.lo) else (o, self)
+            en = eng()
+            for x, y in ((c, a), (a, c)):
+                # a factor that has a single possible value on this path is a constant
+                m = en._model()
+                if m is not None:
+                    v = m.eval(x.iv, model_completion=True).as_long()
+                    try:
+                        if en.decide_case(x != v) is None:
+                            return y * v
+                    except Inconclusive:
+                        pass
+            return a * en.concretize(c, cap=8)
         try:
             b, i, l, h = parts(o)
         except Unsupported:
